@@ -120,13 +120,17 @@ CreateTmp == /\ pc = "tmp" /\ Startup # "badrange" /\ ~(Startup = "nodump" /\ sc
              /\ pc' = "scan"
              /\ UNCHANGED <<sc, scan, seen, lastAt, idx, fileMaxH, maxH, cur, open, blk, delivered, fin, rows, exit, errH>>
 
-\* index.rs get_block_index: one 'b' record, in key order
+\* an entry of the index database is a block record iff its key starts with 'b' (entries without a `key` field are block records)
+IsBlockKey(r) == "key" \notin DOMAIN r \/ r.key = "b"
+\* index.rs get_block_index: one database entry, in key order
 ScanRecord == /\ pc = "scan" /\ scan < Len(sc.recs) /\ Startup \notin {"nodir", "noindex"}
               /\ LET r == sc.recs[scan + 1] IN
-                   /\ seen' = [id \in DOMAIN seen \cup {r.id} |-> IF id = r.id THEN r ELSE seen[id]]
-                   /\ lastAt' = IF AsIsKeeps(r)
-                                THEN [h \in DOMAIN lastAt \cup {r.h} |-> IF h = r.h THEN r.id ELSE lastAt[h]]
-                                ELSE lastAt
+                   IF IsBlockKey(r)
+                   THEN /\ seen' = [id \in DOMAIN seen \cup {r.id} |-> IF id = r.id THEN r ELSE seen[id]]
+                        /\ lastAt' = IF AsIsKeeps(r)
+                                     THEN [h \in DOMAIN lastAt \cup {r.h} |-> IF h = r.h THEN r.id ELSE lastAt[h]]
+                                     ELSE lastAt
+                   ELSE UNCHANGED <<seen, lastAt>>          \* 'f', 'l', 'R', 'F' ... keys of the node are not block records
               /\ scan' = scan + 1
               /\ UNCHANGED <<sc, pc, idx, fileMaxH, maxH, cur, open, blk, delivered, tmp, fin, rows, exit, errH>>
 
@@ -319,6 +323,9 @@ OnlyActive == \A i \in DOMAIN delivered :
                  delivered[i][1] \in DOMAIN sc.active /\ delivered[i][2] = sc.active[delivered[i][1]]
 
 Linked == \A i \in DOMAIN delivered : i > 1 => sc.facts[delivered[i][2]].prev = delivered[i - 1][2]
+
+\* C03: database keys that are not block records never reach the chain index
+IgnoreForeignKeys == \A id \in DOMAIN seen : \E i \in DOMAIN sc.recs : IsBlockKey(sc.recs[i]) /\ sc.recs[i].id = id
 
 \* C09 ------------------------------------------------------------------
 \* the run succeeds iff every block of the range is consistent; otherwise it stops at the first bad height
